@@ -76,7 +76,7 @@ def select__pi_kind_test(self: XPathFunction, context: ta.ContextType = None) \
 def nud__pi_kind_test(self: XPathFunction) -> XPathFunction:
     self.parser.advance('(')
     if self.parser.next_token.symbol != ')':
-        self.parser.next_token.expected('(name)', '(string)')
+        self.parser.expected_next('(name)', '(string)')
         self[0:] = self.parser.expression(5),
     self.parser.advance(')')
     return self
